@@ -200,6 +200,39 @@ def run(F, R, tier):
                          "callee %s" % x.get("callee"), F.loc(g, x.get("line")))
     R.count("uses of HMap.pairs", n_uses)
     R.floor("uses of HMap.pairs", n_uses, 6)
+    # a store into a script-visible map is unconditional ("a lookup returns the value most recently inserted under an
+    # equal key"): in every function that stores into a HashMap keyed by Rc<Object> (HMap::insert; VM::build_map for
+    # literals) no path runs from the entry to a return — or, inside a loop, around the loop once — without passing
+    # the HashMap::insert call.  A fast path that skips the store when the entry "already has" an == value loses the
+    # newer of two equal-but-distinguishable values (1 / 1.0, 0.0 / -0.0, distinct equal arrays).
+    from .lib import mir as M
+    n_store = 0
+    for p in ("object::hmap::HMap::insert", "vm::interpreter::VM::build_map"):
+        g = F.fn(p)
+        if not R.anchor(p, g and g.get("mir")):
+            continue
+        B = M.Body(g)
+        ins = M.call_blocks(B, lambda t: (t.get("callee") or "").startswith("std::collections::HashMap") and (t.get("callee") or "").endswith("::insert"))
+        if not R.anchor(p + ": HashMap::insert call", ins):
+            continue
+        n_store += len(ins)
+        loops = [(h, body) for h, body in M.natural_loops(B) if ins & body]
+        if loops:
+            for h, body in loops:
+                # an iteration that reaches the loop's back edge without the store; leaving the function with an error is fine
+                free = set()
+                for s_ in B.succ(h):
+                    if s_ in body:
+                        free |= M.reachable_avoiding(B, s_, ins | {h}, through_start=False)
+                back = [t for t in free if h in B.succ(t) and t in body]
+                R.ob("insert-always-stores", "%s: every completed iteration of the building loop stores its pair" % H.last(p), not back,
+                     "an iteration can complete without HashMap::insert (through bb%s)" % back[:3] if back else "HashMap::insert is on every path around the loop", F.loc(g))
+        else:
+            free = M.reachable_avoiding(B, 0, ins)
+            rets = sorted(free & M.return_blocks(B))
+            R.ob("insert-always-stores", "%s: every return is behind the HashMap::insert call" % H.last(p), not rets,
+                 "a return is reachable without storing (bb%s)" % rets[:3] if rets else "HashMap::insert dominates every return", F.loc(g))
+    R.floor("stores into Object-keyed maps", n_store, 2)
     # lookups take the key itself (no pre-conversion)
     for nm, meth in (("get", "get"), ("contains", "contains_key"), ("insert", "insert")):
         g = F.fn("object::hmap::HMap::" + nm)
